@@ -213,6 +213,13 @@ def gen_children(rng, tier, depth, budget):
     pool = list(KEY_POOL)
     while len(keys) < fan:
         k = rng.pick(pool) if rng.chance(0.7) else "".join(chr(rng.randrange(97, 123)) for _ in range(rng.randint(1, 9)))
+        if rng.chance(0.06):
+            # long key names: the name length + 1 is the entry's one-byte data offset (126..255 sits around the sign bit)
+            nbytes = rng.pick([100, 125, 126, 127, 128, 200, 253, 254])
+            if rng.chance(0.5):
+                k = "".join(chr(rng.randrange(97, 123)) for _ in range(nbytes))
+            else:
+                k = ("\u00e9" * (nbytes // 2)) + ("x" * (nbytes % 2))
         if k not in keys:
             keys.append(k)
     out = []
@@ -691,6 +698,15 @@ def run_impl(fh, paths):
         out["dict"] = ["ok", canon_py(hf.as_dict())]
     except Exception as e:  # noqa: BLE001
         out["dict"] = ["exc", type(e).__name__, str(e)[:120]]
+    # decoding is a function of the file: asking again gives the same tree (values held in file objects included)
+    if out["dict"][0] == "ok":
+        try:
+            again = ["ok", canon_py(hf.as_dict())]
+            third = ["ok", canon_py(hf.as_dict())]
+        except Exception as e:  # noqa: BLE001
+            again = third = ["exc", type(e).__name__, str(e)[:120]]
+        if again != out["dict"] or third != out["dict"]:
+            out["repeat"] = "as_dict() differs between calls on one object"
     shapes = []
     for p in paths:
         try:
@@ -795,6 +811,9 @@ def judge_common(case, impl_res, coq_val, sig, with_spec):
         what = "objtable-cycle" if case.get("mutation") == "otab_cycle" else "open"
         return [Finding("impl_fault", f"implementation {kind} while decoding ({impl_res.get('detail', '')[:120]})",
                         f"{sig}:{what}:{kind}")]
+    if impl_res.get("repeat"):
+        fs.append(Finding("impl_vs_spec", "the decoded tree changes between as_dict() calls on the same HyperVFile",
+                          sig + ":repeat"))
     m = model_view(coq_val)
     if m["open"] == "fuel" or m.get("dict") == ["fuel"]:
         fs.append(Finding("model_vs_spec", "model ran out of fuel", sig + ":fuel"))
